@@ -327,6 +327,8 @@ def main():
         reach.update(r.get('reach', []))
         if r['nontrivial'] and r['key'] is not None:
             nontrivial_keys.add(r['key'])
+        for k in r.get('extra_keys', []):
+            nontrivial_keys.add(k)
         if r['inconclusive']:
             inconclusive_cases.append({'idx': c['idx'], 'reason': r['inconclusive']})
         for v in r['violations']:
@@ -405,6 +407,8 @@ def main():
             'anchored_functions_entered': [s for s in getattr(mod, 'REACH', []) if any(k.endswith(s) for k in reach)],
             'known_findings_seen': {k: e['count'] for k, e in viol_known.items()},
             'inconclusive_cases': inconclusive_cases[:20],
+            'case_wall_s': {'sum': round(sum(float(r.get('wall', 0)) for r in results.values()), 1),
+                            'max': round(max([float(r.get('wall', 0)) for r in results.values()] or [0]), 1), 'jobs': njobs},
             'verdict': verdict,
             'inconclusive_reasons': reasons,
             'exhaustive': bool(getattr(mod, 'EXHAUSTIVE', False)),
